@@ -71,3 +71,14 @@ def c20_peek_low_level(frame_type, channel, payload, rest):
 def c01_roundtrip(frame_value, channel, rest):
     data = frame.marshal(frame_value, channel)
     return data, frame.unmarshal(data + rest)
+
+
+def c02_roundtrip(header_value, channel, rest):
+    data = frame.marshal(header_value, channel)
+    return data, frame.unmarshal(data + rest)
+
+
+def c02_reencode(header_value, normalised, channel):
+    """`normalised` is the header the round-trip lemma shows the decoder returns
+    (every set property replaced by its documented normalisation)."""
+    return frame.marshal(header_value, channel), frame.marshal(normalised, channel)
